@@ -126,6 +126,12 @@ CLAIMED = {
          'that the matcher requires serial AND issuer-name hash AND issuer-key hash, that the chain comes from the same sign1, and that the deciding conditions of the OCSP status logs agree with the reviewed table.'),
    note='Undecided: OCSP signature/validity evaluation. Decision table is reference-through-time (see C36). Trusted base: ' + TRUSTED,
    design='5/C37'),
+ 'C40': dict(
+   technique='sibling agreement over MIR: per sync/async pair, multiset comparison of normalised resolved callees with shallow argument shapes',
+   text=('Decides that the two flavours of every async_generic pair perform the same operations on the same data: a call present in only one flavour, or the same call fed from a different variable / settings field, '
+         'is reported unless tabled with a reason (and the reason is re-checked by a field-use side condition).'),
+   note='Undecided: equality of outcomes. Argument shapes are shallow (variable, field path or producing callee); differences nested deeper inside an argument expression are not seen. Trusted base: ' + TRUSTED,
+   design='5/C40'),
 }
 
 NA_REASONS = {
